@@ -34,6 +34,7 @@ def C10(tier):
         Harness("h_bus::bus_read_after_write", domain=ARB_BUS + "; write address, read address, byte symbolic"),
         Harness("h_bus::bus_write_pair_no_alias", domain=ARB_BUS + "; two write addresses and bytes symbolic (all 65 536 ordered pairs at once)"),
         Harness("h_bus::bus_input_setters_frame", domain=ARB_BUS + "; which setter and byte symbolic"),
+        Harness("h_bus::machine_input_setters_delegate", domain="Machine fully arbitrary; which Machine::set_input_fX and byte symbolic"),
     ]
     return dict(
         harnesses=hs,
@@ -56,6 +57,7 @@ def C14(tier):
         Harness("h_board::board_control_writes_via_bus", domain=dom + "write to 0xF2/0xF3 through Bus::write, byte symbolic"),
         Harness("h_board::board_fan_period_law", key="board.fan-period", domain=dom + "read of 0xF2"),
         Harness("h_board::board_status_reads", domain=dom + "reads of F0/F1/F3"),
+        Harness("h_board::machine_board_setters_delegate", domain="Machine fully arbitrary (arbitrary board, no invariant needed); which of the nine Machine-level board setters and its argument symbolic"),
     ]
     return dict(
         harnesses=hs,
@@ -73,8 +75,12 @@ def C07(tier):
     hs = [
         Harness("h_reset::reset_cpu", key="reset.cpu", domain=arb),
         Harness("h_reset::reset_master", key="reset.master", domain=arb),
-        Harness("h_reset::load_image_n0", key="load", timeout=2400, domain=arb + "; empty image, limits symbolic", bounds="image length 0"),
-        Harness("h_reset::load_image_n3", key="load", timeout=2400, domain=arb + "; 3 symbolic image bytes, limits symbolic", bounds="image length 3, unwind 242"),
+        Harness("h_reset::load_ram_empty_program", key="load.ram", timeout=900, domain="machine as created except 240 arbitrary RAM bytes; ByteCode without lines", bounds="empty program"),
+        Harness("h_reset::load_ram_n0", key="load.ram", timeout=900, domain="machine as created except 240 arbitrary RAM bytes; empty image", bounds="image length 0"),
+        Harness("h_reset::load_ram_n2", key="load.ram", timeout=900, domain="machine as created except 240 arbitrary RAM bytes; 2 symbolic image bytes", bounds="image length 2"),
+        Harness("h_reset::load_ram_n16", key="load.ram", timeout=1500, tier="thorough", domain="machine as created except 240 arbitrary RAM bytes; 16 symbolic image bytes", bounds="image length 16"),
+        Harness("h_reset::load_image_n0", key="load", timeout=1500, domain=arb + "; empty image, limits symbolic", bounds="image length 0"),
+        Harness("h_reset::load_image_n3", key="load", timeout=2400, tier="thorough", domain=arb + "; 3 symbolic image bytes, limits symbolic", bounds="image length 3, unwind 242"),
         Harness("h_reset::load_image_n1", key="load", tier="thorough", timeout=1500, domain=arb + "; 1 image byte", bounds="image length 1"),
         Harness("h_reset::load_image_n8", key="load", tier="thorough", timeout=1500, domain=arb + "; 8 image bytes", bounds="image length 8"),
         Harness("h_reset::load_image_n16", key="load", tier="thorough", timeout=2400, domain=arb + "; 16 image bytes", bounds="image length 16"),
@@ -573,6 +579,9 @@ def C11(tier):
                     bounds="a step of at most %d clock edges; unwind 18" % kk)
         h.custom_confirm = sweep
         hs.append(h)
+    hreal = Harness("h_asm::real_step_is_one_edge", key="asm-step.real-mode", domain="Real step mode with the counter automaton as the edge: exactly one edge per call")
+    hreal.custom_confirm = sweep
+    hs.append(hreal)
     for kk, tr, tmo in ((100, "quick", 1500), (560, "thorough", 10800)):
         h = Harness("h_asm::asm_step_long_k%d" % kk, key="asm-step.equiv", timeout=tmo, tier=tr,
                     domain="the clock edge replaced by a counter automaton (boundary until edge LEAVE, inside an instruction until edge BACK, "
